@@ -25,10 +25,14 @@ mod c03;
 mod c04;
 mod c05;
 mod c06;
+mod c07;
+mod c08;
 mod c10;
 mod c15;
+mod c17;
 mod c18;
 mod c19;
+mod c20;
 
 use report::{Report, Tier};
 
@@ -50,10 +54,14 @@ fn checks() -> Vec<Check> {
         Check { id: "C04", level: "model_checking", run: c04::run, replay: c04::replay },
         Check { id: "C05", level: "exploration", run: c05::run, replay: c05::replay },
         Check { id: "C06", level: "exploration", run: c06::run, replay: c06::replay },
+        Check { id: "C07", level: "model_checking", run: c07::run, replay: c07::replay },
+        Check { id: "C08", level: "exploration", run: c08::run, replay: c08::replay },
         Check { id: "C10", level: "fault_enumeration", run: c10::run, replay: c10::replay },
         Check { id: "C15", level: "exploration", run: c15::run, replay: c15::replay },
+        Check { id: "C17", level: "exploration", run: c17::run, replay: c17::replay },
         Check { id: "C18", level: "exploration", run: c18::run, replay: c18::replay },
         Check { id: "C19", level: "exploration", run: c19::run, replay: c19::replay },
+        Check { id: "C20", level: "model_checking", run: c20::run, replay: c20::replay },
     ]
 }
 
